@@ -12,6 +12,7 @@ var harnessOf = map[string]*sim.Harness{
 	"C10": HTimer,
 	"C17": HSSTWAL,
 	"C02": HOp, "C03": HOp, "C06": HOp, "C11": HOp,
+	"C01": HCluster, "C04": HCluster, "C05": HCluster, "C14": HCluster, "C15": HCluster, "C16": HCluster,
 	"C12": HStore, "C13": HStore,
 }
 
